@@ -1198,7 +1198,7 @@ class NamespaceManager(dict):
                     new_qname = dn_namespace[local_part]
             elif prefix in self and self[prefix] == namespace:
                 # No need to add the namespace
-                existing_ns = self[prefix]
+                existing_ns = self._announced(self[prefix])
                 if existing_ns is namespace:
                     return qname
                 else:
@@ -1226,7 +1226,7 @@ class NamespaceManager(dict):
             prefix, local_part = str_value.split(":", 1)
             if prefix in self:
                 #  return a new QualifiedName
-                return self[prefix][local_part]
+                return self._announced(self[prefix])[local_part]
             if prefix in self._prefix_renamed_map:
                 #  return a new QualifiedName
                 return self._prefix_renamed_map[prefix][local_part]
@@ -1258,6 +1258,14 @@ class NamespaceManager(dict):
 
         # Default to FAIL
         return None
+
+    def _announced(self, namespace):
+        # 'prov' and 'xsd' are predeclared in every PROV serialization; any other
+        # pre-bound namespace ('xsi') has to be declared once a name uses it
+        prefix = namespace.prefix
+        if prefix in self._default_namespaces and prefix not in ("prov", "xsd"):
+            self._namespaces.setdefault(prefix, namespace)
+        return namespace
 
     def get_anonymous_identifier(self, local_prefix="id"):
         """
